@@ -262,6 +262,7 @@ func genC12Case(t *simrt.Tape) *c12case {
 	locs := make([]locT, nl)
 	for i := range locs {
 		m := t.Choose(K, nm)
+		noMapping := t.Bool(K, 12)
 		var addr uint64
 		switch t.Choose(K, 6) {
 		case 0:
@@ -274,7 +275,10 @@ func genC12Case(t *simrt.Tape) *c12case {
 			addr = maps[m].start + uint64(0x100+0x10*i)
 		}
 		locs[i] = locT{m: m, addr: addr}
-		if nf > 0 && (maps[m].hasF || t.Bool(K, 25)) {
+		if noMapping {
+			locs[i].m = -1 // a location outside every mapping
+		}
+		if nf > 0 && (maps[m].hasF || noMapping || t.Bool(K, 25)) {
 			n := 1 + t.Choose(K, 2)
 			for j := 0; j < n; j++ {
 				locs[i].funcs = append(locs[i].funcs, t.Choose(K, nf))
@@ -304,7 +308,10 @@ func genC12Case(t *simrt.Tape) *c12case {
 			p.Function = append(p.Function, &profile.Function{ID: fids[i], Name: n, SystemName: n, Filename: "/src/old.cc", StartLine: 3})
 		}
 		for i, l := range locs {
-			loc := &profile.Location{ID: uint64(i + 1), Mapping: p.Mapping[l.m], Address: l.addr}
+			loc := &profile.Location{ID: uint64(i + 1), Address: l.addr}
+			if l.m >= 0 {
+				loc.Mapping = p.Mapping[l.m]
+			}
 			for _, fi := range l.funcs {
 				loc.Line = append(loc.Line, profile.Line{Function: p.Function[fi], Line: int64(7 + fi), Column: 2})
 			}
